@@ -94,7 +94,7 @@ theorem refused_lock_cell (db : DB) (c : Cmd) (data : Option Bytes) (b : LockBra
     intro hg
     unfold W.freeCheck at hg ⊢
     rcases removeIfZero_cases (((db.enter c.key).newLock c data).1.modK (·.free ((db.enter c.key).newLock c data).2)) with e | ⟨hg', _⟩
-    · simp only [reply_k]; rw [e]; simp [W.newLock, enter_k]
+    · simp only [reply_k]; rw [e]; simp [W.newLock, enter_k, Key.addRec]
     · simp only [reply_gone] at hg; rw [hg'] at hg; exact absurd hg (by simp)
   | updateEqualData _ | update _ | relockNoHold _ | relock _ | grant | grantNoHold | queue => simp [LockBranch.refuses] at hb
 
